@@ -75,6 +75,11 @@ struct Stats {
 	deaggs: u64,
 	deagg_err: BTreeMap<String, u64>,
 	deagg_oracle_checked: u64,
+	/// de-aggregations with a spend link between known subset and remainder (deaggregate_general):
+	/// runs; results that validate / do not validate
+	deagg_linked: u64,
+	deagg_linked_valid: u64,
+	deagg_linked_invalid: u64,
 	validates: u64,
 	validate_err: BTreeMap<String, u64>,
 	cuts: u64,
@@ -1070,6 +1075,76 @@ fn run_case_inner(
 					_ => {}
 				}
 			}
+			// beyond that hypothesis (deaggregate_general): conflict-free operands WITH spend links
+			// between the known subset and the remainder. Never an error; the result is the
+			// remainder with both ends of every link into / out of the operand set removed: inputs
+			// of the remainder that spend nothing created by any operand, outputs of the remainder
+			// that no operand spends, the remainder's kernels.
+			if conflict_free && n >= 2 && txs.iter().all(|t| matches!(t.inputs(), Inputs::CommitOnly(_))) && {
+				let mut ks: Vec<Hash> = txs.iter().flat_map(|t| t.kernels().iter().map(|k| k.hash())).collect();
+				let l = ks.len();
+				ks.sort();
+				ks.dedup();
+				ks.len() == l
+			} {
+				let rest: Vec<usize> = (0..n).filter(|i| !sub.contains(i)).collect();
+				let all_in: BTreeSet<Vec<u8>> = txs.iter().flat_map(|t| commit_ids_of_tx(t).0.into_iter().map(|c| c.0.to_vec())).collect();
+				let all_out: BTreeSet<Vec<u8>> = txs.iter().flat_map(|t| commit_ids_of_tx(t).1.into_iter().map(|c| c.0.to_vec())).collect();
+				let sub_in: BTreeSet<Vec<u8>> = stx.iter().flat_map(|t| commit_ids_of_tx(t).0.into_iter().map(|c| c.0.to_vec())).collect();
+				let sub_out: BTreeSet<Vec<u8>> = stx.iter().flat_map(|t| commit_ids_of_tx(t).1.into_iter().map(|c| c.0.to_vec())).collect();
+				let mut want_in: Vec<Vec<u8>> = vec![];
+				let mut want_out: Vec<Vec<u8>> = vec![];
+				let mut want_k: Vec<Hash> = vec![];
+				let mut linked = false;
+				for i in &rest {
+					let (ti, to) = commit_ids_of_tx(&txs[*i]);
+					for c in ti {
+						if sub_out.contains(&c.0.to_vec()) {
+							linked = true;
+						}
+						if !all_out.contains(&c.0.to_vec()) {
+							want_in.push(c.0.to_vec());
+						}
+					}
+					for c in to {
+						if sub_in.contains(&c.0.to_vec()) {
+							linked = true;
+						}
+						if !all_in.contains(&c.0.to_vec()) {
+							want_out.push(c.0.to_vec());
+						}
+					}
+					want_k.extend(txs[*i].kernels().iter().map(|k| k.hash()));
+				}
+				want_in.sort();
+				want_out.sort();
+				want_k.sort();
+				if linked {
+					w.st.deagg_linked += 1;
+					match &r {
+						Ok(d) => {
+							let (di_, do_) = commit_ids_of_tx(d);
+							let mut gi: Vec<Vec<u8>> = di_.iter().map(|c| c.0.to_vec()).collect();
+							let mut go: Vec<Vec<u8>> = do_.iter().map(|c| c.0.to_vec()).collect();
+							let mut gk: Vec<Hash> = d.kernels().iter().map(|k| k.hash()).collect();
+							gi.sort();
+							go.sort();
+							gk.sort();
+							if gi != want_in || go != want_out || gk != want_k {
+								oracle_fail(out, &mut w.st, &format!("case {}: deaggregate(aggregate {:?}, {:?}) with spend links between subset and remainder = {} is not the remainder with the linked inputs / outputs removed", case_no, all, sub, ids.tx_str(d)));
+							}
+							// what comes back is not a valid transaction (an end of a link is missing)
+							if !rest.is_empty() {
+								match d.validate(Weighting::NoLimit) {
+									Ok(()) => w.st.deagg_linked_valid += 1,
+									Err(_) => w.st.deagg_linked_invalid += 1,
+								}
+							}
+						}
+						Err(e) => oracle_fail(out, &mut w.st, &format!("case {}: deaggregate(aggregate {:?}, {:?}) of conflict-free linked operands fails: {}", case_no, all, sub, err_name(e))),
+					}
+				}
+			}
 		}
 	}
 
@@ -1656,6 +1731,342 @@ fn heavy_case(out: &mut Out, w: &mut World, txs: &[Transaction], what: &str) {
 	}
 }
 
+// ---------------------------------------------------------------------------------------------
+// run `retr`: the node's hydration path - Pool::retrieve_transactions on a real grin_pool::Pool,
+// then Block::hydrate_from with what it returned
+// ---------------------------------------------------------------------------------------------
+
+/// the pool never asks its chain anything in `retrieve_transactions`
+struct NoChain;
+impl grin_pool::BlockChain for NoChain {
+	fn verify_coinbase_maturity(&self, _: &Inputs) -> Result<(), grin_pool::PoolError> {
+		Err(grin_pool::PoolError::Other("no chain".into()))
+	}
+	fn verify_tx_lock_height(&self, _: &Transaction) -> Result<(), grin_pool::PoolError> {
+		Err(grin_pool::PoolError::Other("no chain".into()))
+	}
+	fn validate_tx(&self, _: &Transaction) -> Result<(), grin_pool::PoolError> {
+		Err(grin_pool::PoolError::Other("no chain".into()))
+	}
+	fn validate_inputs(&self, _: &Inputs) -> Result<Vec<OutputIdentifier>, grin_pool::PoolError> {
+		Err(grin_pool::PoolError::Other("no chain".into()))
+	}
+	fn chain_head(&self) -> Result<BlockHeader, grin_pool::PoolError> {
+		Err(grin_pool::PoolError::Other("no chain".into()))
+	}
+	fn get_block_header(&self, _: &Hash) -> Result<BlockHeader, grin_pool::PoolError> {
+		Err(grin_pool::PoolError::Other("no chain".into()))
+	}
+	fn get_block_sums(&self, _: &Hash) -> Result<grin_core::core::BlockSums, grin_pool::PoolError> {
+		Err(grin_pool::PoolError::Other("no chain".into()))
+	}
+}
+
+/// One retrieval: the real pool holding `entries` is asked for `kern_ids` under (hash, nonce).
+/// Printed abstractly: kernels by rank of their hash (code 2*rank), short ids by rank of their six
+/// bytes (two kernels with one short id share the number), pool entries as `tag:kernels` with equal
+/// tags for equal transactions (`==` of the real transactions, what `dedup` uses).
+/// Returns what the pool returned.
+fn retr_case(
+	out: &mut Out,
+	case_no: u64,
+	variant: &str,
+	entries: &[Transaction],
+	hash: &Hash,
+	nonce: u64,
+	kern_ids: &[grin_core::core::ShortId],
+) -> Result<(Vec<Transaction>, Vec<grin_core::core::ShortId>), String> {
+	let mut pool = grin_pool::Pool::new(std::sync::Arc::new(NoChain), "verif".to_string());
+	for t in entries {
+		pool.entries.push(grin_pool::PoolEntry::new(t.clone(), grin_pool::TxSource::Broadcast));
+	}
+	let r = catch(std::panic::AssertUnwindSafe(|| pool.retrieve_transactions(*hash, nonce, kern_ids)));
+	// kernel ranks
+	let mut khs: Vec<Hash> = entries.iter().flat_map(|t| t.kernels().iter().map(|k| k.hash())).collect();
+	khs.sort();
+	khs.dedup();
+	let kcode = |k: &TxKernel| -> u64 { 2 * khs.binary_search(&k.hash()).unwrap() as u64 };
+	// short-id numbers
+	let mut sids: Vec<Vec<u8>> = entries.iter().flat_map(|t| t.kernels().iter().map(|k| k.short_id(hash, nonce).as_ref().to_vec())).collect();
+	sids.extend(kern_ids.iter().map(|s| s.as_ref().to_vec()));
+	sids.sort();
+	sids.dedup();
+	let snum = |s: &[u8]| -> u64 { sids.binary_search(&s.to_vec()).unwrap() as u64 };
+	let mut table = vec![0u64; khs.len()];
+	for t in entries {
+		for k in t.kernels() {
+			table[(kcode(k) / 2) as usize] = snum(k.short_id(hash, nonce).as_ref());
+		}
+	}
+	let tag = |t: &Transaction| -> usize { entries.iter().position(|e| e == t).unwrap_or(usize::MAX) };
+	let pool_str: Vec<String> = entries
+		.iter()
+		.map(|t| {
+			let ks: Vec<String> = t.kernels().iter().map(|k| kcode(k).to_string()).collect();
+			format!("{}:{}", tag(t), if ks.is_empty() { "-".to_string() } else { ks.join(",") })
+		})
+		.collect();
+	let lhs = format!(
+		"tx retr {} {} {} {} {}",
+		case_no,
+		variant,
+		nat_list(&table),
+		if pool_str.is_empty() { "-".to_string() } else { pool_str.join(";") },
+		nat_list(&kern_ids.iter().map(|s| snum(s.as_ref())).collect::<Vec<_>>())
+	);
+	match r {
+		Ok((txs, missing)) => {
+			let idx: Vec<u64> = txs.iter().map(|t| tag(t) as u64).collect();
+			out.line(&lhs, &format!("{} {}", nat_list(&idx), nat_list(&missing.iter().map(|s| snum(s.as_ref())).collect::<Vec<_>>())));
+			Ok((txs, missing))
+		}
+		Err(p) => {
+			out.line(&lhs, "panic");
+			Err(p)
+		}
+	}
+}
+
+fn retr_run(out: &mut Out, w: &mut World, nfam: usize, thorough: bool) {
+	let ncases = if thorough { 1200 } else { 160 };
+	let mut stat: BTreeMap<String, BTreeMap<String, u64>> = BTreeMap::new();
+	let mut case_no = 0u64;
+	let base_len = w.pool.iter().position(|p| !p.parts.is_empty()).unwrap_or(w.pool.len());
+	for ci in 0..ncases {
+		// the block's transactions: a whole conflict-free family plus singles of other families
+		let fams: Vec<usize> = (0..nfam).filter(|f| f % 4 != 3).collect();
+		let f = *w.rng.pick(&fams);
+		let mut ops: Vec<usize> = (0..base_len).filter(|i| w.pool[*i].family == f).collect();
+		let extra = w.rng.below(4) as usize;
+		let mut others: Vec<usize> = fams.iter().cloned().filter(|g| *g != f).collect();
+		shuffle(&mut w.rng, &mut others);
+		for g in others.iter().take(extra) {
+			let c: Vec<usize> = (0..base_len).filter(|i| w.pool[*i].family == *g).collect();
+			ops.push(*w.rng.pick(&c));
+		}
+		if ci % 11 == 10 {
+			ops.clear(); // a block without transactions: kern_ids empty
+		}
+		shuffle(&mut w.rng, &mut ops);
+		let txs: Vec<Transaction> = ops.iter().map(|i| w.pool[*i].tx.clone()).collect();
+		// unrelated transactions (families not touched by the block)
+		let used: BTreeSet<usize> = ops.iter().map(|i| w.pool[*i].family).collect();
+		let unrelated: Vec<Transaction> = (0..base_len).filter(|i| !used.contains(&w.pool[*i].family) && w.pool[*i].family % 4 != 3).map(|i| w.pool[i].tx.clone()).collect();
+		let fees: u64 = txs.iter().map(|t| t.fee()).sum();
+		let rkey = ExtKeychain::derive_key_id(3, 11, ci as u32, 0, 0);
+		let built = catch(std::panic::AssertUnwindSafe(|| {
+			let (rout, rkern) = reward::output(w.kc, &w.pb, &rkey, fees, true).map_err(|e| format!("{:?}", e))?;
+			Block::from_reward(&BlockHeader::default(), &txs, rout, rkern, Difficulty::min_dma()).map_err(|e| block_err_name(&e))
+		}));
+		let b = match built {
+			Ok(Ok(b)) => b,
+			Ok(Err(e)) => {
+				oracle_fail(out, &mut w.st, &format!("retr case {}: the block of conflict-free transactions cannot be built: {}", ci, e));
+				continue;
+			}
+			Err(p) => {
+				oracle_fail(out, &mut w.st, &format!("retr case {}: building the block panicked: {}", ci, p));
+				continue;
+			}
+		};
+		let cb: CompactBlock = b.clone().into();
+		let hash = cb.hash();
+		// the pool in several shapes
+		let nvar = 9;
+		for v in 0..nvar {
+			let mut entries: Vec<Transaction> = vec![];
+			let mut clean = true; // the pool holds the block's transactions in some grouping, plus unrelated ones
+			let name;
+			let grouped = |w: &mut World, txs: &[Transaction]| -> Vec<Transaction> {
+				let mut res = vec![];
+				for g in random_grouping(&mut w.rng, txs.len(), false) {
+					let gt: Vec<Transaction> = g.iter().map(|i| txs[*i].clone()).collect();
+					if let Ok(t) = transaction::aggregate(&gt) {
+						res.push(t);
+					} else {
+						res.extend(gt);
+					}
+				}
+				res
+			};
+			match v {
+				0 => {
+					name = "exact";
+					entries = txs.clone();
+				}
+				1 => {
+					name = "grouped";
+					entries = grouped(w, &txs);
+				}
+				2 => {
+					name = "grouped+unrelated";
+					entries = grouped(w, &txs);
+					for u in unrelated.iter() {
+						if w.rng.chance(1, 2) {
+							let at = w.rng.below(entries.len() as u64 + 1) as usize;
+							entries.insert(at, u.clone());
+						}
+					}
+					if w.rng.chance(1, 3) {
+						entries.insert(0, Transaction::empty());
+					}
+				}
+				3 => {
+					name = "missing";
+					clean = false;
+					entries = txs.clone();
+					if !entries.is_empty() {
+						let k = w.rng.range(1, entries.len() as u64) as usize;
+						for _ in 0..k {
+							let at = w.rng.below(entries.len() as u64) as usize;
+							entries.remove(at);
+						}
+					}
+					for u in unrelated.iter().take(2) {
+						entries.push(u.clone());
+					}
+				}
+				4 => {
+					name = "shared-kernels";
+					clean = false;
+					// a transaction and an aggregate containing it, in either order
+					entries = txs.clone();
+					if txs.len() >= 2 {
+						let i = w.rng.below(txs.len() as u64) as usize;
+						let j = (i + 1 + w.rng.below(txs.len() as u64 - 1) as usize) % txs.len();
+						if let Ok(agg) = transaction::aggregate(&[txs[i].clone(), txs[j].clone()]) {
+							let at = w.rng.below(entries.len() as u64 + 1) as usize;
+							entries.insert(at, agg);
+							if w.rng.chance(1, 2) {
+								// ... and the other part is only there inside the aggregate
+								entries.retain(|t| *t != txs[j]);
+							}
+						}
+					}
+				}
+				5 => {
+					name = "duplicate-entries";
+					clean = false;
+					entries = txs.clone();
+					if !entries.is_empty() {
+						let i = w.rng.below(entries.len() as u64) as usize;
+						let d = entries[i].clone();
+						if w.rng.chance(1, 2) {
+							entries.insert(i, d); // adjacent
+						} else {
+							entries.push(d); // possibly far apart
+						}
+					}
+				}
+				6 => {
+					name = "overlapping-aggregate";
+					clean = false;
+					// one of the block's transactions only as an aggregate with an unrelated one
+					entries = txs.clone();
+					if !txs.is_empty() && !unrelated.is_empty() {
+						let i = w.rng.below(txs.len() as u64) as usize;
+						if let Ok(agg) = transaction::aggregate(&[txs[i].clone(), w.rng.pick(&unrelated).clone()]) {
+							entries[i] = agg;
+						}
+					}
+				}
+				7 => {
+					name = "unrelated-only";
+					clean = false;
+					entries = unrelated.iter().take(4).cloned().collect();
+				}
+				_ => {
+					name = "reversed+unrelated-first";
+					entries = unrelated.iter().take(3).cloned().collect();
+					let mut r = txs.clone();
+					r.reverse();
+					entries.extend(r);
+				}
+			}
+			case_no += 1;
+			let res = retr_case(out, case_no, name, &entries, &hash, cb.nonce, cb.kern_ids());
+			let outcome = match &res {
+				Err(p) => {
+					oracle_fail(out, &mut w.st, &format!("retr case {} ({}): retrieve_transactions panicked: {}", case_no, name, p));
+					"panic".to_string()
+				}
+				Ok((got, missing)) => {
+					if !missing.is_empty() {
+						if clean {
+							oracle_fail(out, &mut w.st, &format!("retr case {} ({}): the pool holds every transaction of the block ({} kernels) but {} short ids are reported missing", case_no, name, cb.kern_ids().len(), missing.len()));
+						}
+						"missing".to_string()
+					} else {
+						match catch(std::panic::AssertUnwindSafe(|| Block::hydrate_from(cb.clone(), got))) {
+							Ok(Ok(hb)) => {
+								let hi: Vec<CommitWrapper> = hb.inputs().into();
+								let bi: Vec<CommitWrapper> = b.inputs().into();
+								let same = hb.header.hash() == b.header.hash() && hi == bi && hb.outputs() == b.outputs() && hb.kernels() == b.kernels();
+								if clean && !same {
+									oracle_fail(out, &mut w.st, &format!("retr case {} ({}): the block hydrated from what the pool returned ({} transactions for {} short ids) is not the block", case_no, name, got.len(), cb.kern_ids().len()));
+								}
+								if same { "hydrated-same".to_string() } else { "hydrated-different".to_string() }
+							}
+							Ok(Err(e)) => {
+								if clean {
+									oracle_fail(out, &mut w.st, &format!("retr case {} ({}): hydrate_from fails on what the pool returned: {}", case_no, name, block_err_name(&e)));
+								}
+								format!("hydrate-err:{}", block_err_name(&e))
+							}
+							Err(p) => {
+								oracle_fail(out, &mut w.st, &format!("retr case {} ({}): hydrate_from panicked: {}", case_no, name, p));
+								"panic".to_string()
+							}
+						}
+					}
+				}
+			};
+			if clean {
+				// rule-fixed: a pool that holds the block's transactions (any grouping, anything
+				// unrelated around them) hydrates the identical block
+				out.line(&format!("tx retrhyd {} {}", case_no, name), &outcome);
+			}
+			*stat.entry(name.to_string()).or_default().entry(outcome).or_insert(0) += 1;
+		}
+	}
+	// ---- short-id collisions: three pairs of kernels (Plain, fee f, default excess) found by a
+	// birthday search over 2^25 fees under (collision_hash, COLLISION_NONCE)
+	let pairs: [(u32, u32); 3] = [(5880597, 22049689), (10893704, 21397893), (8088371, 12697367)];
+	let h = collision_hash();
+	let mut still = 0;
+	for (pi, (f1, f2)) in pairs.iter().enumerate() {
+		let (k1, k2) = (fake_kernel(*f1), fake_kernel(*f2));
+		let (s1, s2) = (k1.short_id(&h, COLLISION_NONCE), k2.short_id(&h, COLLISION_NONCE));
+		if s1.as_ref() == s2.as_ref() {
+			still += 1;
+		}
+		let t1 = Transaction::empty().with_kernel(k1.clone());
+		let t2 = Transaction::empty().with_kernel(k2.clone());
+		let other = Transaction::empty().with_kernel(fake_kernel(1000 + pi as u32));
+		let so = fake_kernel(1000 + pi as u32).short_id(&h, COLLISION_NONCE);
+		let both = Transaction::empty().with_kernel(k1.clone()).with_kernel(k2.clone());
+		let shapes: Vec<(&str, Vec<Transaction>, Vec<grin_core::core::ShortId>)> = vec![
+			("collision-wanted-first", vec![t1.clone(), t2.clone()], vec![s1.clone()]),
+			("collision-other-first", vec![t2.clone(), t1.clone()], vec![s1.clone()]),
+			("collision-two-ids", vec![t2.clone(), other.clone(), t1.clone()], vec![s1.clone(), so.clone()]),
+			("collision-two-ids-late", vec![t2.clone(), t1.clone(), other.clone()], vec![so.clone(), s1.clone()]),
+			("collision-in-one-tx", vec![both.clone(), other.clone()], vec![s1.clone(), so.clone()]),
+			("collision-only-other", vec![t2.clone()], vec![s1.clone()]),
+		];
+		for (name, entries, ids) in shapes {
+			case_no += 1;
+			let r = retr_case(out, case_no, name, &entries, &h, COLLISION_NONCE, &ids);
+			let outcome = match r {
+				Ok((got, missing)) => format!("{} txs, {} missing", got.len(), missing.len()),
+				Err(_) => "panic".to_string(),
+			};
+			*stat.entry(name.to_string()).or_default().entry(outcome).or_insert(0) += 1;
+		}
+	}
+	out.raw(&format!("#STAT retr: {} retrievals on a real grin_pool::Pool; outcome by pool shape: {:?}", case_no, stat));
+	out.raw(&format!("#STAT retr: short-id collisions: {} of 3 precomputed kernel pairs still share their 6-byte short id under the fixed (hash, nonce); oracle failures {}", still, w.st.oracle_fails));
+}
+
 /// the block hash / nonce under which the two fake kernels of `COLLIDING_FEES` have the same short id
 const COLLISION_NONCE: u64 = 7;
 fn collision_hash() -> Hash {
@@ -1767,6 +2178,12 @@ fn main() {
 		nfam,
 		w.pool.len() - base_len
 	));
+
+	if std::env::args().nth(1).as_deref() == Some("retr") {
+		retr_run(&mut out, &mut w, nfam, thorough);
+		out.flush();
+		return;
+	}
 
 	eprintln!("tx phase {} at {:?}", 1, t_start.elapsed());
 	// ---- cases
@@ -2350,8 +2767,8 @@ fn main() {
 		st.agg_ok, st.agg_err, st.cut_pairs, st.perms, st.groupings, st.group_inner_err, st.validates, st.validate_err
 	));
 	out.raw(&format!(
-		"#STAT deaggregate: runs={} errors={:?} remainder-oracle evaluated={}; cut_through direct: runs={} errors={}",
-		st.deaggs, st.deagg_err, st.deagg_oracle_checked, st.cuts, st.cut_err
+		"#STAT deaggregate: runs={} errors={:?} remainder-oracle evaluated={}; with a spend link between the known subset and the remainder (result = remainder minus both ends of every link, checked)={} (result validates {}, does not validate {}); cut_through direct: runs={} errors={}",
+		st.deaggs, st.deagg_err, st.deagg_oracle_checked, st.deagg_linked, st.deagg_linked_valid, st.deagg_linked_invalid, st.cuts, st.cut_err
 	));
 	out.raw(&format!(
 		"#STAT cancelling offsets (repaired findings aggregate-offset-sum-zero / deaggregate-zero-remainder-offset): dedicated cases={}; aggregates whose non-zero offsets sum to zero: succeeded={} (conflict-free {}, validate() ok {}) failed-although-conflict-free={}; inner groups with cancelling offsets aggregated={}; de-aggregations with zero remainder offset (mk offset == subset offset != 0): succeeded={} (whole set de-aggregated {}, equal to the remainder by the oracle {}) failed={}; blocks whose previous total offset cancels the aggregate's offset: built with zero total offset={} failed={}",
